@@ -3,10 +3,104 @@ package main
 // Locks, channels, maps (stubs grow into Tier 1/2 features).
 
 import (
+	"fmt"
 	"go/types"
+	"sort"
+	"strings"
 
 	"golang.org/x/tools/go/ssa"
 )
+
+// ---------- locks: monitor invariants and guarded-by discipline ----------
+//
+//   //@ lock (*T).mutex as self
+//   //@   guards f, g, U.h          (own fields f, g of the object that embeds the mutex; field h of every U object)
+//   //@   invariant <expr over self>
+//
+// Lock():   the guarded memory may have been changed by other critical sections: it is forgotten and the invariant
+//           is assumed.  Unlock(): the invariant is an obligation (lock-inv).  Any access to guarded memory without
+//           the lock in the path's lockset is an obligation failure (guarded), except on objects allocated by the
+//           function itself (not yet published).
+
+type lockSpec struct {
+	c        *Contract
+	typ      string // named struct type (package-qualified key as in region names)
+	field    string
+	self     string
+	own      []string // region prefixes of own-object guarded fields:  F|T.f
+	foreign  []string // region prefixes guarded for every object:      F|U.h
+	via      string
+	through  [][2]string // own pointer field f, field g of its pointee:  f->g
+}
+
+func (ex *Exec) lockSpecs() []*lockSpec {
+	if ex.lspecs != nil {
+		return ex.lspecs
+	}
+	ex.lspecs = []*lockSpec{}
+	for k, c := range ex.prog.Types {
+		if c.Kind != "lock" {
+			continue
+		}
+		_ = k
+		// name: (*T).mutex [as self]
+		name := c.Name
+		self := "self"
+		if i := strings.Index(name, " as "); i > 0 {
+			self = strings.TrimSpace(name[i+4:])
+			name = strings.TrimSpace(name[:i])
+		}
+		j := strings.LastIndex(name, ").")
+		if j < 0 {
+			continue
+		}
+		tn := strings.TrimPrefix(strings.TrimPrefix(name[:j], "("), "*")
+		ls := &lockSpec{c: c, field: name[j+2:], self: self, via: c.Options["via"]}
+		pkgName := shortName(c.Pkg)
+		if sp := ex.prog.SPkgs[c.Pkg]; sp != nil {
+			pkgName = sp.Pkg.Name()
+		}
+		ls.typ = pkgName + "." + tn
+		for _, g := range c.Guards {
+			if i := strings.Index(g, "->"); i > 0 {
+				ls.through = append(ls.through, [2]string{g[:i], g[i+2:]})
+				continue
+			}
+			if i := strings.Index(g, "."); i > 0 {
+				ls.foreign = append(ls.foreign, "F|"+pkgName+"."+g)
+			} else {
+				ls.own = append(ls.own, "F|"+ls.typ+"."+g)
+			}
+		}
+		ex.lspecs = append(ex.lspecs, ls)
+	}
+	sort.Slice(ex.lspecs, func(a, b int) bool { return ex.lspecs[a].typ+ex.lspecs[a].field < ex.lspecs[b].typ+ex.lspecs[b].field })
+	return ex.lspecs
+}
+
+// lockOf identifies the lock a mutex pointer denotes: (spec, owning object).
+func (ex *Exec) lockOf(mu Val) (*lockSpec, Val) {
+	fp, ok := mu.(FieldPtr)
+	if !ok {
+		return nil, nil
+	}
+	tk := typeKey(fp.Own)
+	fname := fp.ST.Field(fp.Idx).Name()
+	for _, ls := range ex.lockSpecs() {
+		if ls.typ == tk && ls.field == fname {
+			return ls, fp.Base
+		}
+	}
+	return nil, nil
+}
+
+func (ex *Exec) objRef(v Val) *Term {
+	switch x := v.(type) {
+	case RefPtr:
+		return x.Ref
+	}
+	return nil
+}
 
 func (ex *Exec) lockKey(p Val) string {
 	switch x := p.(type) {
@@ -24,17 +118,127 @@ func (ex *Exec) lockKey(p Val) string {
 
 func (ex *Exec) lockOp(fr *Frame, ins ssa.Instruction, mu Val, acquire bool, read bool) {
 	key := ex.lockKey(mu)
+	ls, obj := ex.lockOf(mu)
 	if acquire {
-		ex.st.locks[key] = &lockHeld{obj: mu}
-		ex.lockAcquired(fr, ins, mu, key)
-	} else {
-		ex.lockReleased(fr, ins, mu, key)
-		delete(ex.st.locks, key)
+		ex.st.locks[key] = &lockHeld{obj: obj, ls: ls}
+		if ls != nil {
+			ex.lockAcquired(fr, ins, ls, obj)
+		}
+		return
+	}
+	if ls != nil {
+		ex.lockReleased(fr, ins, ls, obj)
+	}
+	delete(ex.st.locks, key)
+}
+
+func (ex *Exec) lockEnv(fr *Frame, ls *lockSpec, obj Val) *Env {
+	e := ex.envFor(nil, nil)
+	e.vars[ls.self] = obj
+	if sp := ex.prog.SPkgs[ls.c.Pkg]; sp != nil {
+		e.pkg = sp.Pkg
+	}
+	return e
+}
+
+func (ex *Exec) lockAcquired(fr *Frame, ins ssa.Instruction, ls *lockSpec, obj Val) {
+	ts := ex.ts
+	ref := ex.objRef(obj)
+	// forget guarded memory
+	for n := range ex.regionSorts {
+		for _, p := range ls.foreign {
+			if strings.HasPrefix(n, p) {
+				ex.st.heap[n] = ts.Fresh("H|"+n, ex.regionSorts[n])
+				if ex.dry != nil {
+					ex.dry.regions[n] = true
+				}
+			}
+		}
+		if ref != nil {
+			for _, p := range ls.own {
+				if n == p || strings.HasPrefix(n, p+".") {
+					reg := ex.st.region(ex, n, ex.regionSorts[n])
+					ex.st.heap[n] = ts.Store(reg, ref, ts.Fresh("lk|"+n, ex.regionSorts[n].Elem))
+				}
+			}
+		}
+	}
+	env := ex.lockEnv(fr, ls, obj)
+	// fields of the object an own pointer field designates are protected by the same lock
+	for _, th := range ls.through {
+		func() {
+			defer func() {
+				if r := recover(); r != nil {
+					if _, ok := r.(unsupported); !ok {
+						panic(r)
+					}
+				}
+			}()
+			pe := &Expr{K: ESel, Name: th[1], Args: []*Expr{{K: ESel, Name: th[0], Args: []*Expr{{K: EIdent, Name: ls.self}}}}}
+			ex.havocTarget(pe, env, "lk")
+		}()
+	}
+	for _, inv := range ls.c.Invariants {
+		ex.assume(ex.evalBool(inv.E, env))
+	}
+	if ex.contract != nil && fr.fn == ex.root {
+		for _, la := range ex.contract.LockAssume {
+			ex.assume(ex.evalBool(la.E, ex.envFor(fr, nil)))
+			ex.note("ASSUMED after Lock in " + relName(ex.root) + " (token argument): " + la.Text)
+		}
 	}
 }
 
-func (ex *Exec) lockAcquired(fr *Frame, ins ssa.Instruction, mu Val, key string) {}
-func (ex *Exec) lockReleased(fr *Frame, ins ssa.Instruction, mu Val, key string) {}
+func (ex *Exec) lockReleased(fr *Frame, ins ssa.Instruction, ls *lockSpec, obj Val) {
+	env := ex.lockEnv(fr, ls, obj)
+	for i, inv := range ls.c.Invariants {
+		ex.oblige("lock-inv", ex.siteOf(ins, fmt.Sprintf("%s.%s:%03d", ls.typ, ls.field, i)), ins.Pos(), "lock invariant of "+ls.typ+"."+ls.field+" holds at Unlock: "+inv.Text, ex.evalBool(inv.E, env))
+	}
+}
+
+// guardedAccess is the guardCheck hook: an access to memory some lock guards needs that lock in the lockset.
+func (ex *Exec) guardedAccess(l Loc, write bool) {
+	if l.Kind != LObj || ex.curIns == nil {
+		return
+	}
+	name := l.Prefix + l.PathS
+	for _, ls := range ex.lockSpecs() {
+		match := func(list []string) bool {
+			for _, p := range list {
+				if name == p || strings.HasPrefix(name, p+".") || strings.HasPrefix(p, name+".") {
+					return true
+				}
+			}
+			return false
+		}
+		own, foreign := match(ls.own), match(ls.foreign)
+		if !own && !foreign {
+			continue
+		}
+		if ex.st.fresh[l.Ref] {
+			continue // allocated by this function: not shared yet
+		}
+		ts := ex.ts
+		cond := ts.False()
+		for _, h := range ex.st.locks {
+			if h.ls != ls {
+				continue
+			}
+			if foreign {
+				cond = ts.True()
+				break
+			}
+			if r := ex.objRef(h.obj); r != nil {
+				cond = ts.Or(cond, ts.Eq(r, l.Ref))
+			}
+		}
+		what := "read"
+		if write {
+			what = "write"
+		}
+		ex.oblige("guarded", ex.siteOf(ex.curIns, name), ex.curIns.Pos(), fmt.Sprintf("%s of %s happens with %s.%s held", what, name, ls.typ, ls.field), cond)
+	}
+}
 
 func (ex *Exec) lockHeldExpr(e *Expr, env *Env) bool {
 	p := ex.evalAddr(e, env)
@@ -52,10 +256,56 @@ func (ex *Exec) chanSend(fr *Frame, x *ssa.Send) {
 	ex.note("channel send: no effect modelled (partial correctness)")
 }
 
+// chanField: the struct field a channel value was loaded from (T, f), when syntactically evident.
+func chanField(v ssa.Value) (types.Type, string) {
+	if u, ok := v.(*ssa.UnOp); ok {
+		if fa, ok := u.X.(*ssa.FieldAddr); ok {
+			if pt, ok := under(fa.X.Type()).(*types.Pointer); ok {
+				if st, ok := under(pt.Elem()).(*types.Struct); ok {
+					return pt.Elem(), st.Field(fa.Field).Name()
+				}
+			}
+		}
+	}
+	return nil, ""
+}
+
+func (ex *Exec) isCloseOnly(v ssa.Value) bool {
+	t, f := chanField(v)
+	if t == nil {
+		return false
+	}
+	named, ok := t.(*types.Named)
+	if !ok || named.Obj().Pkg() == nil {
+		return false
+	}
+	c := ex.prog.Types[fkey(named.Obj().Pkg().Path(), "type "+named.Obj().Name())]
+	if c == nil {
+		return false
+	}
+	for _, n := range c.CloseOnly {
+		if n == f {
+			return true
+		}
+	}
+	return false
+}
+
+func (ex *Exec) chanClosedTerm(ch Val) *Term {
+	ref := ex.refOf(ch)
+	reg := ex.st.region(ex, "X|$closed", SArr(SInt, SBool))
+	return ex.ts.Select(reg, ref)
+}
+
 func (ex *Exec) chanRecv(fr *Frame, x *ssa.UnOp, ch Val) Val {
-	ex.note("channel receive yields an unconstrained value")
 	et := under(x.X.Type()).(*types.Chan).Elem()
 	v := ex.freshVal(et, "recv")
+	if ex.isCloseOnly(x.X) {
+		// nothing is ever sent on this channel: a receive returns only once it has been closed
+		ex.assume(ex.chanClosedTerm(ch))
+	} else {
+		ex.note("channel receive yields an unconstrained value")
+	}
 	if x.CommaOk {
 		ok := ex.ts.Fresh("recvok", SBool)
 		return TupleV{E: []Val{v, ex.boolV(ok)}}
@@ -64,7 +314,19 @@ func (ex *Exec) chanRecv(fr *Frame, x *ssa.UnOp, ch Val) Val {
 }
 
 func (ex *Exec) chanClose(fr *Frame, ins ssa.Instruction, ch Val) {
-	ex.note("close(chan): close-once is not checked for this channel")
+	ts := ex.ts
+	var arg ssa.Value
+	if ci, ok := ins.(ssa.CallInstruction); ok && len(ci.Common().Args) > 0 {
+		arg = ci.Common().Args[0]
+	}
+	if arg == nil || !ex.isCloseOnly(arg) {
+		ex.note("close(chan): close-once is checked only for channels declared closeonly")
+		return
+	}
+	ref := ex.refOf(ch)
+	reg := ex.st.region(ex, "X|$closed", SArr(SInt, SBool))
+	ex.oblige("closeonce", ex.siteOf(ins, ""), ins.Pos(), "the channel is not closed twice", ts.Not(ts.Select(reg, ref)))
+	ex.st.heap["X|$closed"] = ts.Store(reg, ref, ts.True())
 }
 
 func (ex *Exec) selectStmt(fr *Frame, x *ssa.Select) Val {
